@@ -14,7 +14,8 @@ TECHNIQUE = "runtime reference-model monitor on program.variables and on A[k] ar
 RULE = ("scripts declaring scalars of all five types (type-compatible parameter-free initialisers) and int/float/complex arrays r x c "
         "(1<=r<=5, 1<=c<=6; with/without declared shape; with/without bare parameters at random positions), every in-range index used as "
         "an argument; plus negative cases: one row longer/shorter (incl. size-preserving), declared shape != actual (incl. transposed); "
-        "non-trivial = a positive case with an array of >=2 rows and >=2 columns or with parameter elements, or any negative case; distinct by SHA-1")
+        "non-trivial = a positive case with an array of >=2 rows and >=2 columns or with parameter elements, or any negative case; distinct by SHA-1"
+        '; float initialisers of int scalars / int-array elements where the conversion is exact (reference rule 13); every eighth valid script once more with an include line, through load()')
 BUDGET = {"quick": 5000, "thorough": 60000}
 MIN_NONTRIVIAL = {"quick": 500, "thorough": 5000}
 REQUIRED_FUNCTIONS = ["listener.py:BlackbirdListener.exitExpressionvar", "listener.py:BlackbirdListener.exitArrayvar", "auxiliary.py:_expression"]
